@@ -234,6 +234,9 @@ func (m hostileMgr) List(ctx context.Context) ([]string, error)              { r
 
 func child(batch int, seed int64, tier, outDir string) {
 	debug.SetTraceback("all")
+	// a goroutine stack may grow to 64 MiB here (the default is 1 GiB): recursion whose depth the input controls shows
+	// with inputs of a few hundred kilobytes instead of several megabytes
+	debug.SetMaxStack(64 << 20)
 	res := batchResult{Events: map[string]int64{}}
 	journal := filepath.Join(outDir, fmt.Sprintf("journal-%d.txt", batch))
 	inputFile := filepath.Join(outDir, fmt.Sprintf("input-%d.bin", batch))
@@ -799,6 +802,31 @@ func child(batch int, seed int64, tier, outDir string) {
 						sk.Save()
 					}
 					config.LoadExecSaveSigningKeys(func(k *config.SigningKeys) error { k.Remove("k2"); return nil })
+					// several names in one call, the default key among them (first, in the middle, last), in the file's order and reversed
+					for variant := 0; variant < 4; variant++ {
+						if sk2, err := config.LoadSigningKeys(); err == nil && sk2 != nil {
+							var names []string
+							for _, k := range sk2.Keys {
+								names = append(names, k.Name)
+							}
+							if sk2.Default != nil {
+								switch variant {
+								case 0:
+									names = append([]string{*sk2.Default}, names...)
+								case 1:
+									names = append(names, *sk2.Default)
+								case 2:
+									for a, b := 0, len(names)-1; a < b; a, b = a+1, b-1 {
+										names[a], names[b] = names[b], names[a]
+									}
+								}
+							}
+							sk2.Remove(names...)
+							sk2.GetDefault()
+							sk2.UpdateDefault("k1")
+						}
+					}
+					config.LoadExecSaveSigningKeys(func(k *config.SigningKeys) error { k.Remove("k1", "k2", "k3"); return nil })
 				default:
 					if c, err := config.LoadConfig(); err == nil && c != nil {
 						c.Save()
@@ -898,6 +926,19 @@ func child(batch int, seed int64, tier, outDir string) {
 				dk: pf.DescribeKeyResponse{KeyID: []string{"k", ""}[rng.Intn(2)], KeySpec: pf.KeySpec([]string{"EC-256", "RSA-2048", "", "bogus"}[rng.Intn(4)])},
 				gs: pf.GenerateSignatureResponse{KeyID: "k", Signature: rng.Bytes(rng.Intn(100)), SigningAlgorithm: pf.SignatureAlgorithm([]string{"ECDSA-SHA-256", "", "x"}[rng.Intn(3)]), CertificateChain: [][][]byte{nil, {}, {good.Cert.Raw}, {rng.Bytes(30)}, {good.Cert.Raw, good.Cert.Raw}, {nil}}[rng.Intn(6)]},
 				ge: pf.GenerateEnvelopeResponse{SignatureEnvelope: in, SignatureEnvelopeType: []string{f, "", "x"}[rng.Intn(3)], Annotations: map[string]string{"a": "b"}}}
+			if rng.Intn(60) == 0 {
+				// a VALIDLY signed COSE envelope whose payload is nothing but nesting, half a million levels deep
+				deep := deepNest(500000, "[", "]")
+				if rng.Bool() {
+					deep = append(append([]byte(`{"targetArtifact":`), deepNest(400000, `{"a":`, "}")...), '}')
+				}
+				if raw, err := lib.CoreSign(lib.SignSpec{Format: lib.MediaCOSE, Payload: deep, Signer: good}); err == nil {
+					in, f, cls = raw, lib.MediaCOSE, "validly-signed-deeply-nested-payload"
+					hp.meta.Capabilities = []pf.Capability{pf.CapabilityEnvelopeGenerator}
+					hp.ge = pf.GenerateEnvelopeResponse{SignatureEnvelope: raw, SignatureEnvelopeType: lib.MediaCOSE}
+					res.Events["deeply-nested-signed-payloads"]++
+				}
+			}
 			run("signer.PluginSigner", id+" "+cls, in, func() {
 				ps, err := signer.NewPluginSigner(hp, "k", nil)
 				if err != nil {
